@@ -115,6 +115,8 @@ def crash_site(err):
     m = re.search(r"SUMMARY: \w+Sanitizer: (\S+)", err)
     if m:
         return m.group(1) + "@?"
+    if "GARBLED-OUTPUT" in err:
+        return "garbled-output"
     if "Not enough memory" in err or "ABORT" in err.upper():
         return "abort"
     return ""
